@@ -427,6 +427,14 @@ def run(env, rep):
     finally:
         bench.close()
     run_level_b(env, rep, R)
+    # every branch of the model must have been exercised (else the run proves nothing: exit 2)
+    need = ["a:end=NotObservable", "a:end=ObservationCancelled", "a:end=NetworkError", "a:end=MessageError",
+            "a:end=none", "a:event=OC", "a:event=RC", "a:event=M:noobs", "a:iterator=attentive",
+            "a:iterator=lazy", "b:end=NotObservable", "b:end=ObservationCancelled", "b:end=T2", "b:end=T3",
+            "b:rst-sent", "b:ack-sent", "b:event=R:CON", "b:event=R:NON", "b:callbacks"]
+    missing = [k for k in need if not rep.hist.get(k)]
+    if missing:
+        raise HarnessError("generators did not reach: " + ", ".join(missing))
     if R != c07_pipe.RFC_RESET_TICKS:
         rep.notes.append(f"implementation's OBSERVATION_RESET_TIME is {R} ticks, RFC 7641 says 128 s")
 
